@@ -2,6 +2,7 @@ package main
 
 // One blank import per component; each registers its modes in init().
 import (
+	_ "verifharness/internal/accessors"
 	_ "verifharness/internal/beaconblock"
 	_ "verifharness/internal/beaconepoch"
 	_ "verifharness/internal/c19"
